@@ -1,10 +1,15 @@
-import Pendulum.Drv.Util
-/-! request handler for property C03 (stub until the property is built) -/
+import Pendulum.Drv.DTUtil
+/-! C03/C04 request: `add <zref> <wall> <fold> <years> <months> <weeks> <days> <hours> <minutes> <seconds> <micros>` -/
 namespace Pendulum.Drv.C03
-open Pendulum Pendulum.Drv
+open Pendulum Pendulum.Drv Pendulum.DTOps
 
-def handle (_zs : Zones) (ws : List String) : Option String :=
+def handle (zs : Zones) (ws : List String) : Option String :=
   match ws with
+  | ["add", z, w, f, a, b, c, d, e, g, h, i] => do
+    let v ← parseV zs z w f
+    match ints [a, b, c, d, e, g, h, i] with
+    | some [y, mo, wk, dd, hh, mi, s, us] => some (replyV (add v y mo wk dd hh mi s us))
+    | _ => none
   | _ => none
 
 end Pendulum.Drv.C03
